@@ -834,7 +834,13 @@ def _push_row_index(interp, base, idx, st, node, depth=0):
             ops.append(v_)  # broadcast along the rows
         elif len(sh_) == 2:
             if sh_[0].is_const() and sh_[0].c == 1 and not (base.shape[0].is_const() and base.shape[0].c == 1):
-                ops.append(v_)  # a single row broadcast along the rows
+                # a single row broadcast along the rows: that row (the vector itself when it was only given a unit axis)
+                src_ = interp.vtab.get(v_.term.args[0]) if isinstance(v_.term, Term) and v_.term.op in ("reshape1", "reshape", "getitem") and v_.term.args and isinstance(v_.term.args[0], Term) else None
+                ssh_ = shape_of(src_) if src_ is not None else None
+                if src_ is not None and ssh_ is not None and len(ssh_) == 1 and ssh_[0] == sh_[1]:
+                    ops.append(src_)
+                else:
+                    ops.append(subscript(interp, v_, vconst(0), st, node))
             elif sh_[0] == base.shape[0]:
                 if sh_[1].is_const() and sh_[1].c == 1 and isinstance(v_.term, Term) and v_.term.op in ("reshape1", "reshape") and isinstance(v_.term.args[0], Term):
                     src_ = interp.vtab.get(v_.term.args[0])
@@ -932,7 +938,7 @@ def subscript(interp, base, idx, st, node):
         if len(its_) == len(base.shape) and all(d.is_const() and d.c == 1 for d in base.shape) and all(i_.has_const and isinstance(i_.const, int) and not isinstance(i_.const, bool) and i_.const in (0, -1) for i_ in its_):
             # the single entry of a 1 x 1 (x 1 ...) array
             return V("arr", T("reshape1", base.term), shape=(), orig=frozenset([FRESH]), labels=labels, loc=fresh_id(), extra=base.extra if isinstance(base.extra, str) else None)
-        if idx.kind == "int" and len(base.shape) == 2 and isinstance(base.term, Term) and base.term.op in _ELEMENTWISE and hasattr(interp, "vtab"):
+        if idx.kind == "int" and len(base.shape) == 2 and isinstance(base.term, Term) and base.term.op in _ELEMENTWISE and hasattr(interp, "vtab") and not __import__("os").environ.get("VERIF_NO_PUSH"):
             # row k of an elementwise expression over broadcast operands: index the operands that have that row axis,
             # keep those that are broadcast along it (f(s, a.reshape(-1, 1))[k] = f(s, a[k]))
             pushed = _push_row_index(interp, base, idx, st, node)
